@@ -19,5 +19,9 @@ if [ "$VAR" = fault ]; then
 else
   $CC $CF -c "$REPO/src/confuse.c" -o confuse.o
 fi
-$CC $CF -c lexer.c -o lexer.o
+if [ "$VAR" = fault ]; then
+  $CC $CF -DVERIF_FREE_ONLY -include "$HERE/fault_alloc.h" -c lexer.c -o lexer.o
+else
+  $CC $CF -c lexer.c -o lexer.o
+fi
 ar rcs "$OUT/libconfuse_$VAR.a" confuse.o lexer.o
